@@ -27,6 +27,7 @@ fn main() {
         "C12" => props::c12::run(),
         "C13" => props::c13::run(),
         "C14" => props::c14::run(),
+        "C15" => props::c15::run(),
         "C16" => props::c16::run(),
         "C18" => props::c18::run(),
         "rulegen-stats" => { rulegen_stats(); 0 }
@@ -58,6 +59,7 @@ fn replay(path: &str) -> i32 {
         "C12" => props::c12::replay(&v["case"]),
         "C13" => props::c13::replay(&v["case"]),
         "C14" => props::c14::replay(&v["case"]),
+        "C15" => props::c15::replay(&v["case"]),
         "C16" => props::c16::replay(&v["case"]),
         "C18" => props::c18::replay(&v["case"]),
         _ => Err(format!("no replay for {pid}")),
